@@ -3,6 +3,8 @@
 package lsw
 
 import (
+	"time"
+
 	litestream "github.com/benbjohnson/litestream"
 )
 
@@ -47,6 +49,12 @@ func (w *World) runPending(p *pendingAt, late bool) {
 	p.fired = true
 	before := w.Obs.Commits
 	for _, o := range p.ops {
+		if o.K == "bg" {
+			if !late {
+				w.spawnBG(o)
+			}
+			continue
+		}
 		r := w.AppStep(o)
 		if (o.K == "vacuum" || o.K == "incvacuum") && r.Err == nil && !r.Skipped {
 			w.Obs.Commits++ // rewrites pages without changing the logical state: still a commit the running call may or may not cover
@@ -89,10 +97,37 @@ func (w *World) phaseHook(db *litestream.DB, phase string) {
 	}
 }
 
+// spawnBG starts a litestream call on its own goroutine from inside a phase hook, i.e. while the hooked operation
+// holds whatever it holds at that point, and gives it a few milliseconds to reach the lock it will queue on. The call
+// completes after the hooked operation moves on; finishInterleave waits for it. If the goroutine is slow to start the
+// call simply runs later, which is an ordinary sequential schedule.
+func (w *World) spawnBG(o Op) {
+	done := make(chan struct{})
+	w.bg = append(w.bg, done)
+	db, ctx := w.DB, w.ctx
+	go func() {
+		defer close(done)
+		switch o.M {
+		case "snapshot":
+			_, _ = db.Snapshot(ctx)
+		case "sync":
+			_ = db.Sync(ctx)
+		case "checkpoint":
+			_ = db.Checkpoint(ctx, "PASSIVE")
+		}
+	}()
+	time.Sleep(3 * time.Millisecond)
+	w.Obs.BGSpawned++
+}
+
 // finishInterleave removes the hook and executes the entries whose phase never fired, so the application history is
 // the same set of ops whatever path litestream took.
 func (w *World) finishInterleave() {
 	litestream.VerifPhaseHook = nil
+	for _, ch := range w.bg {
+		<-ch
+	}
+	w.bg = nil
 	for _, p := range w.pend {
 		if !p.fired {
 			w.runPending(p, true)
